@@ -3,7 +3,7 @@ import json, os
 from vlib import core
 
 THEOREMS = ["Props.C17." + t for t in [
-    "generated_cfg_is_std", "amp_escape_inverse", "amp_escape_inverse_twice_not", "dump_literal_text", "literal_roundtrip",
+    "generated_cfg_is_std", "amp_escape_inverse", "type_annotation_escaped_once", "dump_literal_text", "literal_roundtrip",
     "literal_roundtrip_iff_safe_witnesses", "annotation_roundtrip", "annotation_text_roundtrip", "numeric_roundtrip_int",
     "numeric_roundtrip_double", "constvalue_roundtrip", "dump_parse_partial", "dump_accepted_partial"]]
 
@@ -12,7 +12,7 @@ PARTIAL = [
     "dump_parse_partial: composed by theorem for constant values (all six kinds, nested), annotation lists, literals and numbers; "
     "headers, typedef/const/enum/struct-like/service layouts are tied by whole-file byte correspondence and judged by the oracle only",
     "dump_accepted_partial: acceptance by the reader model of the dumped fragments; acceptance by the semantic checker is judged by the oracle only",
-    "numeric_roundtrip_double: FormatFloat/ParseFloat are parameters with the assumed shortest-round-trip and shape properties; integral doubles >= 2^63 are a decided counterexample",
+    "numeric_roundtrip_double: FormatFloat/ParseFloat are parameters with the assumed shortest-round-trip and shape properties",
 ]
 
 
